@@ -1,7 +1,7 @@
 (* impl-model of the two protocol obligations of C17.
 
    builtin.go   handlePING            c.Cmd.Pong(e.Last())
-                nickCollisionHandler  (433 / 436 / 437), as repaired in 874a5b0
+                nickCollisionHandler  (433 / 436 / 437), as repaired in 874a5b0 and by the two C17 fixes
                 handleConnect         001: state.nick = Params[0]   (the part C17 depends on)
                 handleNICK            own nick follows a NICK from ourselves (state.renameUser)
    commands.go  Pong  -> Client.write (straight to the tx queue)
@@ -10,8 +10,8 @@
    conn.go      rate / Send / write   which of the two routes consults the flood limiter
 
    The collision handler keeps NO counter of its own.  What it builds on is carried by the
-   numeric itself: Params[1], the nickname the server has just refused, when that is a
-   nickname by IsValidNick; otherwise GetNick().  The only client-side state involved is
+   numeric itself: Params[1], the nickname the server has just refused, unless that is
+   empty, contains SPACE or ',' or is a channel name; otherwise the client's own nickname.  The only client-side state involved is
    state.nick ("" from state.reset at connect until 001; set by 001; changed by our own NICK).
 
    No proofs in this file. *)
@@ -63,23 +63,32 @@ Definition get_nick (cfg : pn_cfg) (st : pn_state) : res str :=
     Ok (match st with [] => pc_nick cfg | _ => st end)
   else Panic.
 
+(* Params[1] can be the refused nickname: not empty, no SPACE or ',' (the text of a numeric
+   that names no nickname), not a channel (437 is also sent for channels) *)
+Definition collision_named (p1 : str) : bool :=
+  match p1 with [] => false | _ => true end
+  && negb (memb 32 p1 || memb 44 p1) && negb (is_valid_channel p1).
+
 (* the nickname the default handler builds on *)
 Definition collision_base (cur : str) (params : list str) : str :=
   match params with
-  | _ :: p1 :: _ => if is_valid_nick p1 then p1 else cur
+  | _ :: p1 :: _ => if collision_named p1 then p1 else cur
   | _ => cur
   end.
 
 Definition underscore : N := 95.
 
+(* state.nick, or Config.Nick while it is empty: read directly by the handler (GetNick would
+   panic when tracking is disabled) *)
+Definition own_nick (cfg : pn_cfg) (st : pn_state) : str :=
+  match st with [] => pc_nick cfg | _ => st end.
+
 (* nickCollisionHandler *)
 Definition nick_collision (cfg : pn_cfg) (st : pn_state) (params : list str) : res (list pn_out) :=
+  let cur := own_nick cfg st in
   match pc_collide cfg with
-  | None =>
-      cur <- get_nick cfg st ;;
-      Ok [cmd_nick (collision_base cur params ++ [underscore])]
+  | None => Ok [cmd_nick (collision_base cur params ++ [underscore])]
   | Some f =>
-      cur <- get_nick cfg st ;;
       match f cur with
       | [] => Ok []
       | n => Ok [cmd_nick n]
